@@ -429,7 +429,10 @@ def tie_check(r, sel_store, sel_disk):
         if tch != must:
             msgs.append(f'{what}: touched-but-not-selected {sorted(tch - must)}, selected-but-not-touched {sorted(must - tch)}')
     if fam == 'track':
-        eq({p for p in selD if pre['records'].get(p, {}).get('type') != 'File'}, 'track: files newly recorded vs model selectDisk (untracked files)')
+        new = {p for p in selD if pre['records'].get(p, {}).get('type') != 'File'}
+        # selected files that are already recorded are touched only when an option changes them (--recheck-method)
+        if not (new <= tch <= selD):
+            msgs.append(f'track: touched {sorted(tch)} not between model selectDisk minus recorded {sorted(new)} and model selectDisk {sorted(selD)}')
     elif fam == 'carry-in':
         edited = {p for p in selF if p in pre['workspace'] and p in FILES and pre['workspace'][p].get('sha') != sha(FILES[p].encode())}
         if '--force' in case['opts']:
